@@ -43,8 +43,19 @@ pub fn run(secs: u32, f: impl FnOnce()) -> Exit {
     }
 }
 
+/// scenarios that ended by their alarm (a hang).  After three of them the rest of the script is not run (each would
+/// wait for its alarm again): they are reported as not run, the hung ones are the finding.
+pub static HANGS: std::sync::atomic::AtomicUsize = std::sync::atomic::AtomicUsize::new(0);
+
 pub fn run_logged(secs: u32, f: impl FnOnce()) -> Exit {
+    if HANGS.load(std::sync::atomic::Ordering::SeqCst) >= 3 {
+        emit(json!({"ev":"Note","what":"not-run","why":"three earlier scenarios hung"}));
+        return Exit { code: 0, signal: 0 };
+    }
     let e = run(secs, f);
+    if e.signal == libc::SIGALRM {
+        HANGS.fetch_add(1, std::sync::atomic::Ordering::SeqCst);
+    }
     emit(json!({"ev":"ChildExit","code":e.code,"signal":e.signal}));
     e
 }
